@@ -377,6 +377,11 @@ def sampler_edits(ms, loc, g, out):
     i = rng.randrange(119)
     v = differ(g, pl["note_samples"][i], lambda: g.pick(0, 255))
     out.append(Edit(f"{base}/payload/note_samples[{i}]", (lambda root, i=i, v=v: nav(root, loc).note_samples.__setitem__(list(nav(root, loc).note_samples)[i], v)), v, cls="sampler-map"))
+    # the map is a dict: the bulk mutators are public too
+    j = rng.randrange(119)
+    if j != i:
+        v2 = differ(g, pl["note_samples"][j], lambda: g.pick(0, 255))
+        out.append(Edit(f"{base}/payload/note_samples[{j}]", (lambda root, j=j, v2=v2: nav(root, loc).note_samples.update({list(nav(root, loc).note_samples)[j]: v2})), v2, cls="sampler-map-update"))
     for f, mk in (("vibrato_attack", lambda: g.pick(0, 255)), ("vibrato_depth", lambda: g.pick(0, 255)), ("vibrato_rate", lambda: g.pick(0, 63)),
                   ("volume_fadeout", lambda: g.pick(0, 8192)), ("volume_old", lambda: g.pick(0, 255)), ("ins_finetune", lambda: g.pick(-128, 127)),
                   ("ins_relative_note", lambda: g.pick(-128, 127)), ("editor_cursor", g.i32), ("editor_selected_size", g.i32),
